@@ -161,13 +161,20 @@ fn must_quote(s: &[u8]) -> bool {
     // https://yaml.org/spec/1.2.2/#912-document-markers
     let is_doc_marker = |s: &[u8]| matches!(s, b"---" | b"...");
 
-    // number overapproximation
-    let is_pos_num = |s: &[u8]| s.first().is_some_and(u8::is_ascii_digit);
-    let is_num = |s: &[u8]| is_pos_num(s.strip_prefix(b"-").unwrap_or(s));
+    // number overapproximation, covering signs and leading dots as in `+1`, `.5`, `-.inf`
+    let is_pos_num = |s: &[u8]| s.first().is_some_and(|c| c.is_ascii_digit() || *c == b'.');
+    let is_num = |s: &[u8]| match s {
+        [b'-' | b'+', s @ ..] => is_pos_num(s),
+        _ => is_pos_num(s),
+    };
+
+    // a plain scalar does not end with white space (it would not be read back)
+    let ends_white = s.last().is_some_and(|c| b" \t".contains(c));
 
     s == b"~"
         || is_doc_marker(s)
         || is_num(s)
+        || ends_white
         || kws.iter().any(|ss| ss.contains(&s))
         || !ns_plain_one_line(s)
 }
@@ -210,6 +217,10 @@ fn must_quote_test() {
 
     assert!(must_quote(b"-1"));
     assert!(!must_quote(b"-a1"));
+    assert!(must_quote(b"+1"));
+    assert!(must_quote(b".5"));
+    assert!(must_quote(b"-.inf"));
+    assert!(must_quote(b"null "));
 }
 
 /// Write a value as YAML document, without explicit document start/end markers.
